@@ -410,8 +410,8 @@ Proof.
   assert (H20 : ecef_to_lla__20 x y z = 0)
     by (unfold ecef_to_lla__20; rewrite H19; unfold Rdiv; ring).
   repeat split; auto.
-  - unfold ecef_to_lla__21. rewrite G, H20. ring.
-  - unfold ecef_to_lla__23. rewrite H18, H19, H20. ring.
+  - unfold ecef_to_lla__21. rewrite G, H20. unfold Rdiv; ring.
+  - unfold ecef_to_lla__23. rewrite H18, H19, H20. unfold Rdiv; ring.
 Qed.
 
 (* branch c2 <= 0.3: the guess is the cosine [ecef_to_lla__24] *)
@@ -444,8 +444,8 @@ Proof.
   assert (H34 : ecef_to_lla__34 x y z = 0)
     by (unfold ecef_to_lla__34; rewrite H33; unfold Rdiv; ring).
   repeat split; auto.
-  - unfold ecef_to_lla__35. rewrite G, H34. ring.
-  - unfold ecef_to_lla__36. rewrite H32, H33, H34. ring.
+  - unfold ecef_to_lla__35. rewrite G, H34. unfold Rdiv; ring.
+  - unfold ecef_to_lla__36. rewrite H32, H33, H34. unfold Rdiv; ring.
 Qed.
 
 Lemma sin_abs_d2r lat : -90 <= lat <= 90 ->
@@ -832,8 +832,8 @@ Proof.
   split; [exact H18|]. split; [exact H19|].
   split; [rewrite H20, H19, H18; reflexivity|].
   split.
-  - unfold ecef_to_lla__21. rewrite G, H20, H19, H18. reflexivity.
-  - unfold ecef_to_lla__23. rewrite H20, H19, H18. reflexivity.
+  - unfold ecef_to_lla__21. rewrite G, H20, H19, H18. unfold Rdiv; ring.
+  - unfold ecef_to_lla__23. rewrite H20, H19, H18. unfold Rdiv; ring.
 Qed.
 
 Lemma olson_step_is_newton_cos x y z phi :
@@ -882,8 +882,8 @@ Proof.
   split; [exact H32|]. split; [exact H33|].
   split; [rewrite H34, H33, H32; reflexivity|].
   split.
-  - unfold ecef_to_lla__35. rewrite G, H34, H33, H32. reflexivity.
-  - unfold ecef_to_lla__36. rewrite H34, H33, H32. reflexivity.
+  - unfold ecef_to_lla__35. rewrite G, H34, H33, H32. unfold Rdiv; ring.
+  - unfold ecef_to_lla__36. rewrite H34, H33, H32. unfold Rdiv; ring.
 Qed.
 
 (** concrete instances for the non-vacuity Examples of Props/C16.v *)
